@@ -5,6 +5,7 @@ package wlreads
 import (
 	"encoding/json"
 	"fmt"
+	"math/big"
 	"strings"
 
 	"github.com/formancehq/ledger/internal/verif/gen"
@@ -19,11 +20,19 @@ import (
 type VarVal struct {
 	T string `json:"t"`
 	V any    `json:"v"`
+	// Float: an int variable bound as a JSON number decoded without UseNumber (what the HTTP
+	// handler does): a float64
+	Float bool `json:"float,omitempty"`
 }
 
 func (v VarVal) goValue() any {
 	switch v.T {
 	case "int":
+		if v.Float {
+			f, _ := new(big.Float).SetString(fmt.Sprint(v.V))
+			x, _ := f.Float64()
+			return x
+		}
 		return json.Number(fmt.Sprint(v.V))
 	case "boolean":
 		b, _ := v.V.(bool)
@@ -106,7 +115,17 @@ func (t *templater) declare(name, typ string, val any) {
 	if r.Intn(4) == 0 {
 		t.decls[name] = typ // plain-string declaration
 	}
-	t.call[name] = VarVal{T: typ, V: val}
+	vv := VarVal{T: typ, V: val}
+	if typ == "int" && r.Intn(2) == 0 {
+		// bind as float64 when the integer is exactly representable
+		if bi, ok := new(big.Int).SetString(fmt.Sprint(val), 10); ok {
+			f, _ := new(big.Float).SetInt(bi).Float64()
+			if back, acc := new(big.Float).SetFloat64(f).Int(nil); acc == big.Exact && back.Cmp(bi) == 0 {
+				vv.Float = true
+			}
+		}
+	}
+	t.call[name] = vv
 }
 
 // abstract walks a concrete filter tree and replaces some leaf values by variable references.
@@ -186,7 +205,20 @@ func runqueryQueries(c *gen.Ctx, features map[string]string, done []Step, last b
 		concrete := genFilterTree(r, res, dates, ntx, depth)
 		noGenericBalance = false
 		t := &templater{c: c, decls: map[string]any{}, call: map[string]VarVal{}}
-		body := t.abstract(concrete)
+		var body any
+		if i == 0 && r.Intn(2) == 0 {
+			// an int variable of magnitude ≥ 2^63 bound as a float64 (JSON number of the HTTP body)
+			res = gen.Pick(r, []string{"accounts", "volumes"})
+			big := gen.Pick(r, []string{"18446744073709551616", "10000000000000000000", "-10000000000000000000", "9223372036854775808"})
+			key := "balance[" + gen.Pick(r, assets) + "]"
+			op := gen.Pick(r, []string{"$lt", "$gte"})
+			concrete = map[string]any{op: map[string]any{key: json.RawMessage(big)}}
+			body = map[string]any{op: map[string]any{key: "${v_big}"}}
+			t.decls["v_big"] = map[string]any{"type": "int"}
+			t.call["v_big"] = VarVal{T: "int", V: big, Float: true}
+		} else {
+			body = t.abstract(concrete)
+		}
 		// defaults of RunQuery
 		p := rqParams{pageSize: 15}
 		switch res {
